@@ -79,8 +79,23 @@ def is_empty(v):
     return False
 
 
-def real(v):
+def real(v, share=None):
+    """The Python value for an encoded content.  With `share` (a dict) equal list/dict
+    sub-structures are represented by one and the same object (shared identity)."""
     from dznpy.text_gen import TextBlock
+    if share is not None and isinstance(v, (list, dict)) and not (isinstance(v, dict) and '$f' in v):
+        import json
+        key = json.dumps(v, sort_keys=True)
+        if key in share:
+            return share[key]
+        if isinstance(v, list):
+            out = [real(x, share) for x in v]
+        elif '$tb' in v:
+            out = TextBlock(real(v['$tb'], share))
+        else:
+            out = {k: real(x, share) for k, x in v['$dict']}
+        share[key] = out
+        return out
     if isinstance(v, dict):
         if '$tb' in v:
             return TextBlock(real(v['$tb']))
@@ -160,6 +175,13 @@ def check_core(case):
     exp = ref_lines(c)
     tb = TextBlock(real(c))
     expect(tb.lines == exp, f'lines {tb.lines!r} != reference {exp!r}', 'lines')
+    # the same container object occurring several times contributes every time
+    twice = [c, 'mid', c, [c]]
+    shared = real(twice, share={})
+    tb2 = TextBlock(shared)
+    exp2 = ref_lines(twice)
+    expect(tb2.lines == exp2, f'shared containers: lines {tb2.lines!r} != reference {exp2!r}',
+           'shared-container')
     _no_break(tb.lines, 'TextBlock(content)')
     expect(str(tb) == ''.join(l + '\n' for l in exp), f'str form {str(tb)!r}', 'str')
     if exp:
